@@ -403,7 +403,41 @@ class FuncAnalysis:
     def term_of(self, e: ast.AST, at: Optional[CNode] = None, env: Optional[Dict[str, Term]] = None, depth: int = 0) -> Term:
         if at is None:
             at = self.cfg.node_of(e)
+        if env is None:
+            env = self._comp_env(e, at, depth)
         return self._t(e, at, env or {}, depth)
+
+    def _comp_env(self, e: ast.AST, at: CNode, depth: int) -> Dict[str, Term]:
+        """bindings of comprehension / lambda variables enclosing e inside its statement."""
+        chain = []
+        child = e
+        for a in ancestors(e):
+            if isinstance(a, ast.stmt) or a is self.fi.node:
+                break
+            if isinstance(a, (ast.ListComp, ast.SetComp, ast.GeneratorExp, ast.DictComp)):
+                # which generators are in scope for `child`?
+                gens = a.generators
+                if child in gens:
+                    idx = gens.index(child)
+                    # inside generator idx: its iter sees generators[:idx]; its ifs see [:idx+1]
+                    chain.append((a, idx, child))
+                else:
+                    chain.append((a, len(gens), None))
+            elif isinstance(a, ast.Lambda):
+                chain.append((a, None, None))
+            child = a
+        env: Dict[str, Term] = {}
+        for a, idx, gen in reversed(chain):
+            if isinstance(a, ast.Lambda):
+                for p in a.args.posonlyargs + a.args.args:
+                    env[p.arg] = ("bound", p.arg)
+                continue
+            upto = a.generators[:idx] if gen is None else a.generators[: idx + (0 if _inside(e, gen.iter) else 1)]
+            for g in upto:
+                it = self._t(g.iter, at, env, depth)
+                for name, path in _unpack_targets(g.target):
+                    env[name] = self._project(("elem", it), path)
+        return env
 
     def _name(self, e: ast.Name, at: CNode, env, depth) -> Term:
         name = e.id
